@@ -239,7 +239,16 @@ class Stmt:
 def parse_where(s):
     """conjunction of simple predicates; OR-groups in parentheses are kept as ('or', [...])"""
     conj = []
-    parts = re.split(r'\s+AND\s+', s, flags=re.I)
+    parts, d, cur, i = [], 0, '', 0
+    while i < len(s):                      # split on AND at parenthesis depth 0 (sub-selects keep their own ANDs)
+        c = s[i]
+        d += c == '('
+        d -= c == ')'
+        m = re.match(r'\s+AND\s+', s[i:], re.I) if d == 0 else None
+        if m:
+            parts.append(cur); cur = ''; i += m.end(); continue
+        cur += c; i += 1
+    parts.append(cur)
     for p in parts:
         p = p.strip()
         if p.startswith('(') and p.endswith(')') and re.search(r'\s+OR\s+', p, re.I):
@@ -337,6 +346,8 @@ class Solver:
         self.queries += 1
         if r == z3.unknown:
             raise SqlError('solver unknown')
+        from vlib import cross
+        cross.record(conds, 'sat' if r == z3.sat else 'unsat', 'sql')
         return (r == z3.sat), (s.model() if r == z3.sat else None)
 
 
